@@ -254,12 +254,18 @@ def check_views(ctx):
         view = views[pick[0]]
         node = int(rng.integers(0, grid.numpoints))
         ttx, trx = np.asarray(view.tx_path.rays.times), np.asarray(view.rx_path.rays.times)
-        spikes = np.zeros((len(pairs), ns))
+        # the premise of the clause is that every arrival of the scatterer lies in the recorded window: the spike record has
+        # its own time axis, starting a few samples before the first arrival of that node and ending after the last one
+        # (the imaging window above may start after the first arrivals on purpose; using it here made the premise false and
+        # raised a false alarm in the thorough tier)
+        arr = np.array([ttx[i, node] + trx[j, node] for i, j in pairs])
+        t0s = float(arr.min() - 3 * dt)
+        ns_s = int(np.ceil((arr.max() - arr.min()) / dt)) + 8
+        spikes = np.zeros((len(pairs), ns_s))
         for k, (i, j) in enumerate(pairs):
-            idx = int(round((ttx[i, node] + trx[j, node] - t0) / dt))
-            if 0 <= idx < ns:
-                spikes[k, idx] = 1.0
-        frs = fixtures.make_frame(spikes, t0, dt, [i for i, _ in pairs], [j for _, j in pairs], probe, exo)
+            idx = int(round((ttx[i, node] + trx[j, node] - t0s) / dt))
+            spikes[k, idx] = 1.0
+        frs = fixtures.make_frame(spikes, t0s, dt, [i for i, _ in pairs], [j for _, j in pairs], probe, exo)
         img = tfm.tfm_for_view(frs, grid, view, interpolation="nearest", fillvalue=0.0).res.ravel()
         cj = {"op": "spike_focus", "immersion": immersion, "view": pick[0], "node": node, "numel": numel}
         ctx.case(("spike", immersion, pick[0], node, spikes.tobytes()), True)
